@@ -183,6 +183,11 @@ def run(ctx):
             failures.append({"signature": core.sig(["lex", lexerr[i][:60]]), "what": f"{lexerr[i]} — {R.describe(c)}",
                              "replay": {"case": c}})
             continue
+        if r.get("noalpha_same") is False:
+            failures.append({"signature": core.sig(["noalpha", c["img"], c["cells"]]),
+                             "what": "disabling transparency does not ignore alpha: the render differs from the render of the "
+                                     f"same image without its alpha channel — {R.describe(c)}", "replay": {"case": c}})
+        hist["alpha_ignored_pairs"] = hist.get("alpha_ignored_pairs", 0) + ("noalpha_same" in r)
         for name, chk in (("uniform", uniform_check),):
             msg = chk(c, r)
             if msg:
